@@ -39,18 +39,33 @@ def replay_lrubytes(case) -> List[Tuple[str, str]]:
     from clematis.engine.util.lru_bytes import LRUBytes
     consts, t = case
     fails: List[Tuple[str, str]] = []
-    c = LRUBytes(consts["MaxE"], consts["MaxB"])
+    # an eviction callback that is documented as tolerated: it records what it is told and raises for every other
+    # victim - the cache's own state and reports must not depend on it
+    told: List[Tuple[Any, Any, int]] = []
+
+    def on_evict(k_, v_, c_):
+        told.append((k_, v_, c_))
+        if len(told) % 2 == 1:
+            raise RuntimeError("verif: on_evict callback failed")
+    variant = (len(t["pre"]) + consts["MaxE"] + consts["MaxB"]) % 2
+    c = LRUBytes(consts["MaxE"], consts["MaxB"], on_evict=on_evict) if variant else LRUBytes(consts["MaxE"], consts["MaxB"])
     for e in t["pre"]:
         c.put(e["k"], e["v"], e["c"])
+    told.clear()
     pre_pairs = [(e["k"], e["v"]) for e in t["pre"]]
     if _lb_alpha(c) != pre_pairs or c.size_bytes() != sum(e["c"] for e in t["pre"]):
         return [("Construct", f"pre-state not reproducible by puts: want {t['pre']} got {_lb_alpha(c)} bytes={c.size_bytes()}")]
     o = t["obs"]
     op = o["op"]
     if op == "put":
-        r = c.put(o["k"], o["v"], o["c"])
+        try:
+            r = c.put(o["k"], o["v"], o["c"])
+        except Exception as e_:      # noqa: BLE001
+            return [("EvictionReport", f"put raised {type(e_).__name__}: {e_} (eviction callback that raises: {bool(variant)})")]
         if tuple(r) != (o["evn"], o["evb"]):
-            fails.append(("EvictionReport", f"put returned {r}, spec says ({o['evn']},{o['evb']})"))
+            fails.append(("EvictionReport", f"put returned {r}, spec says ({o['evn']},{o['evb']}) (eviction callback that raises: {bool(variant)})"))
+        if variant and (len(told), sum(x[2] for x in told)) != (o["evn"], o["evb"]):
+            fails.append(("EvictionReport", f"the eviction callback was told {told}, spec says {o['evn']} victims / {o['evb']} bytes"))
     elif op == "get":
         r = c.get(o["k"])
         want = o["v"] if o["hit"] else None
